@@ -23,7 +23,7 @@ func checkC10(c *Check) {
 	runRulesMC(c, "AlphaStructA", mcLen, Lim{Depth: 3, Objs: 7, ABytes: 1 << 30, IDLen: 1000, Refs: 1}, "", "structure")
 	n1, n2 := 5, 6
 	if c.Tier == "thorough" {
-		n1, n2 = 7, 8
+		n1, n2 = 6, 7 // 16 (27 with padding) events per position: length 8 does not finish within the time limit
 	}
 	runRulesGen(c, genCfg{Alphabet: "AlphaStructA", MaxLen: n1, Lim: defaultLim, Reasons: reasons, Label: "structure/header", Timeout: 20 * time.Minute, Workers: 8})
 	runRulesGen(c, genCfg{Alphabet: "AlphaStructA", MaxLen: n2, Lim: defaultLim, Reasons: reasons, Prefix: prefixDoc, Label: "structure/body", Timeout: 30 * time.Minute, Workers: 8})
